@@ -81,4 +81,23 @@ def scalings(tier="quick", seed=0, only=None):
         cnz = np.abs(K).sum(axis=0) > 0
         if not np.all((cs[cnz] >= 1.0) & (cs[cnz] < 4.0)):
             fail("C20:KKT:nonzero_column_sums_in_[1,4)", inp, cs.tolist())
+    # the public entry point Scaling.from_equilibrated_kkt on matrices for which the power-of-two iteration does NOT
+    # settle (arrow-head KKT matrices: one variable, three rows): it may fail with the equilibration's own error, but
+    # whatever scaling it returns must equilibrate
+    for hdiag, col in (([[2.0]], [[1.0], [3.0], [7.0]]), ([[2.0]], [[0.1], [3.0], [100.0]]), ([[1.0]], [[1.0], [1.0], [1.0]])):
+        Hh, Jj = np.array(hdiag), np.array(col)
+        inp = dict(kind="arrow-head", H=Hh.tolist(), J=Jj.tolist())
+        cases += 1
+        try:
+            sc = Scaling.from_equilibrated_kkt(sp.coo_matrix(Hh), sp.coo_matrix(Jj))
+        except Exception as e:  # noqa
+            if str(e) != "Equilibration failed to converge":
+                fail("C20:KKT:unexpected_exception", inp, f"{type(e).__name__}: {e}")
+            continue
+        n_, m_ = 1, Jj.shape[0]
+        K = np.block([[Hh, Jj.T], [Jj, np.zeros((m_, m_))]])
+        D = np.concatenate([-np.asarray(sc.var_weights), np.asarray(sc.cons_weights)])
+        cs = np.ldexp(np.ldexp(np.abs(K), D[:, None]), D[None, :]).sum(axis=0)
+        if not np.all((cs >= 1.0) & (cs < 4.0)):
+            fail("C20:KKT:from_equilibrated_kkt_returns_a_scaling_that_does_not_equilibrate", inp, cs.tolist())
     return result(cases, failures, f"{len(hand)} hand-made + {N} random instances, n<=4, m<=3, magnitudes 2^-12..2^12")
